@@ -1311,3 +1311,638 @@ Proof.
   cbn [p_top]. rewrite E0 in *. rewrite (skip_seps_vhead _ _ V0).
   destruct t0; try discriminate V0; rewrite Hp; reflexivity.
 Qed.
+
+(* ------------------------------------------------------------------ *)
+(** * The encoder model writes exactly this layout *)
+
+
+Definition emits (txt : bytes) (s s' : CteEnc.est) : Prop :=
+  CteEnc.rout s' = rev txt ++ CteEnc.rout s /\ CteEnc.ind s' = CteEnc.ind s /\ CteEnc.stack s' = CteEnc.stack s /\ CteEnc.cho s' = CteEnc.cho s.
+
+Lemma emits_refl s : emits [] s s.
+Proof. repeat split. Qed.
+
+Lemma emits_trans a b s s1 s2 : emits a s s1 -> emits b s1 s2 -> emits (a ++ b) s s2.
+Proof.
+  intros [A1 [A2 [A3 A4]]] [B1 [B2 [B3 B4]]]. repeat split; try congruence.
+  rewrite B1, A1, rev_app_distr, app_assoc. reflexivity.
+Qed.
+
+Lemma emits_emit_cd bs d s : emits bs s (CteEnc.emit_cd bs d s).
+Proof. unfold emits, CteEnc.emit_cd. cbn [CteEnc.rout CteEnc.ind CteEnc.stack CteEnc.cho]. rewrite rev_append_rev. repeat split. Qed.
+Lemma emits_emit_nolf bs s : emits bs s (CteEnc.emit_nolf bs s).
+Proof. apply emits_emit_cd. Qed.
+Lemma emits_emit_raw bs s : emits bs s (CteEnc.emit_raw bs s).
+Proof. apply emits_emit_cd. Qed.
+Lemma emits_emit_setcol bs c s : emits bs s (CteEnc.emit_setcol bs c s).
+Proof. unfold emits, CteEnc.emit_setcol. cbn [CteEnc.rout CteEnc.ind CteEnc.stack CteEnc.cho]. rewrite rev_append_rev. repeat split. Qed.
+Lemma emits_emit_plf bs s : emits bs s (CteEnc.emit_plf bs s).
+Proof. unfold CteEnc.emit_plf. destruct (CteEnc.plf_col bs); [apply emits_emit_setcol|apply emits_emit_raw]. Qed.
+
+Lemma emits_newline_indent s : emits (nl (CteEnc.ind s)) s (CteEnc.newline_indent s).
+Proof.
+  unfold CteEnc.newline_indent, CteEnc.emit_lf. change (nl (CteEnc.ind s)) with ([10] ++ CteEnc.spaces (CteEnc.ind s)).
+  eapply emits_trans; [apply emits_emit_setcol|].
+  assert (E : CteEnc.ind (CteEnc.emit_setcol [10] 0 s) = CteEnc.ind s) by reflexivity. rewrite <- E at 1. 
+  replace (CteEnc.spaces (CteEnc.ind s)) with (CteEnc.spaces (CteEnc.ind (CteEnc.emit_setcol [10] 0 s))) by reflexivity.
+  apply emits_emit_nolf.
+Qed.
+
+Lemma emits_emit_rune lf r s : scalar r -> (lf = true -> True) -> emits (CteEnc.encode_rune r) s (CteEnc.emit_rune lf r s).
+Proof.
+  intros Hr _. unfold CteEnc.emit_rune. destruct (lf && (r =? 10)) eqn:E.
+  - apply andb_true_iff in E as [_ E]. apply N.eqb_eq in E. subst r. apply emits_emit_setcol.
+  - apply emits_emit_nolf.
+Qed.
+
+Lemma emits_fold_quoted lf rs : Forall scalar rs -> forall s,
+  emits (qbytes rs) s (fold_left (fun s r => if CteEnc.rune_safe r then CteEnc.emit_rune lf r s else CteEnc.emit_nolf (CteEnc.escape_rune r) s) rs s).
+Proof.
+  induction 1 as [|r rs Hr Hrs IH]; intro s; [apply emits_refl|].
+  cbn [fold_left]. unfold qbytes. cbn [flat_map]. fold (qbytes rs).
+  eapply emits_trans; [|apply IH].
+  destruct (CteEnc.rune_safe r); [apply emits_emit_rune; [exact Hr|trivial]|apply emits_emit_nolf].
+Qed.
+
+Lemma qbytes_all_safe rs : Forall scalar rs -> forallb CteEnc.rune_safe rs = true -> qbytes rs = str_bytes rs.
+Proof.
+  induction 1 as [|r rs Hr Hrs IH]; intro H; [reflexivity|].
+  cbn [forallb] in H. apply andb_true_iff in H as [H1 H2].
+  unfold qbytes, str_bytes, CteLit.utf8_str. cbn [flat_map]. rewrite H1. rewrite encode_rune_enc by exact Hr.
+  f_equal. apply IH, H2.
+Qed.
+
+Lemma runes_str_bytes rs : Forall scalar rs -> runes (str_bytes rs) = rs.
+Proof. intro H. rewrite <- (app_nil_r (str_bytes rs)). unfold str_bytes. rewrite runes_utf8_str_app by exact H. apply app_nil_r. Qed.
+
+(* WriteQuotedString on the UTF-8 text of the code points [rs] *)
+Lemma emits_write_quoted lf rs s : Forall scalar rs -> emits (34 :: qbytes rs ++ [34]) s (CteEnc.write_quoted lf (str_bytes rs) s).
+Proof.
+  intro Hs. unfold CteEnc.write_quoted. destruct (str_bytes rs) as [|b v] eqn:Ev.
+  - assert (rs = []).
+    { destruct rs as [|r rs']; [reflexivity|]. exfalso. unfold str_bytes, CteLit.utf8_str in Ev. cbn [flat_map] in Ev.
+      apply app_eq_nil in Ev as [Ev _]. unfold CteLit.utf8_enc in Ev.
+      repeat match type of Ev with (if ?b then _ else _) = [] => destruct b end; discriminate. }
+    subst rs. apply (emits_emit_nolf [34; 34]).
+  - rewrite <- Ev. rewrite (runes_str_bytes rs Hs).
+    change (34 :: qbytes rs ++ [34]) with ([34] ++ qbytes rs ++ [34]).
+    destruct (forallb CteEnc.rune_safe rs) eqn:Esafe.
+    + rewrite (qbytes_all_safe rs Hs Esafe).
+      eapply emits_trans; [apply emits_emit_nolf|]. eapply emits_trans; [|apply emits_emit_nolf].
+      destruct lf; [apply emits_emit_plf|apply emits_emit_nolf].
+    + eapply emits_trans; [apply emits_emit_nolf|]. eapply emits_trans; [|apply emits_emit_nolf].
+      apply emits_fold_quoted, Hs.
+Qed.
+
+Definition vctx (d : CteEnc.deco) : bool :=
+  match d with CteEnc.DTop | CteEnc.DList | CteEnc.DMapKey | CteEnc.DMapValue => true | _ => false end.
+Definition ctx_pre (d : CteEnc.deco) (i : N) : bytes := match d with CteEnc.DList | CteEnc.DMapKey => nl i | _ => [] end.
+Definition post_v (d : CteEnc.deco) : bytes := match d with CteEnc.DMapKey => [32; 61; 32] | _ => [] end.
+Definition next_v (d : CteEnc.deco) : CteEnc.deco :=
+  match d with CteEnc.DMapKey => CteEnc.DMapValue | CteEnc.DMapValue => CteEnc.DMapKey | _ => d end.
+
+Definition outcome_of (txt : bytes) (st' : list CteEnc.deco) (s s' : CteEnc.est) : Prop :=
+  CteEnc.rout s' = rev txt ++ CteEnc.rout s /\ CteEnc.ind s' = CteEnc.ind s /\ CteEnc.stack s' = st' /\ CteEnc.cho s' = true.
+
+Lemma before_value_spec s d stk : CteEnc.stack s = d :: stk -> vctx d = true ->
+  exists s1, CteEnc.before_value s = Some s1 /\ emits (ctx_pre d (CteEnc.ind s)) s s1.
+Proof.
+  intros Hs Hd. unfold CteEnc.before_value. rewrite Hs.
+  destruct d; try discriminate Hd; eexists; (split; [reflexivity|]); cbn [ctx_pre];
+    first [apply emits_refl | apply emits_newline_indent].
+Qed.
+
+Lemma after_value_spec s d stk : CteEnc.stack s = d :: stk -> vctx d = true ->
+  exists s', CteEnc.after_value s = Some s' /\ outcome_of (post_v d) (next_v d :: stk) s s'.
+Proof.
+  intros Hs Hd. unfold CteEnc.after_value, outcome_of. rewrite Hs.
+  destruct d; try discriminate Hd; cbn [CteEnc.after_stack post_v next_v]; eexists; (split; [reflexivity|]);
+    unfold CteEnc.set_cho, CteEnc.set_stack, CteEnc.emit_nolf, CteEnc.emit_cd; cbn [CteEnc.rout CteEnc.ind CteEnc.stack CteEnc.cho];
+    repeat split.
+Qed.
+
+Lemma value_enc (W : CteEnc.est -> CteEnc.est) txt s d stk :
+  (forall s, emits txt s (W s)) -> CteEnc.stack s = d :: stk -> vctx d = true ->
+  exists s', CteEnc.bind (CteEnc.before_value s) (fun s1 => CteEnc.after_value (W s1)) = Some s' /\
+             outcome_of (ctx_pre d (CteEnc.ind s) ++ txt ++ post_v d) (next_v d :: stk) s s'.
+Proof.
+  intros HW Hs Hd.
+  destruct (before_value_spec s d stk Hs Hd) as [s1 [E1 [A1 [A2 [A3 A4]]]]].
+  destruct (HW s1) as [B1 [B2 [B3 B4]]].
+  assert (Hs2 : CteEnc.stack (W s1) = d :: stk) by congruence.
+  destruct (after_value_spec (W s1) d stk Hs2 Hd) as [s' [E2 [C1 [C2 [C3 C4]]]]].
+  exists s'. rewrite E1. cbn [CteEnc.bind]. split; [exact E2|].
+  unfold outcome_of. repeat split; try congruence.
+  rewrite C1, B1, A1. rewrite !rev_app_distr, !app_assoc. reflexivity.
+Qed.
+
+Lemma scalar_enc txt cd s d stk : CteEnc.stack s = d :: stk -> vctx d = true ->
+  exists s', CteEnc.scalar txt cd s = Some s' /\ outcome_of (ctx_pre d (CteEnc.ind s) ++ txt ++ post_v d) (next_v d :: stk) s s'.
+Proof. intros. unfold CteEnc.scalar. apply (value_enc (CteEnc.emit_cd txt cd)); try assumption. intro. apply emits_emit_cd. Qed.
+
+Definition ctx_post (d : CteEnc.deco) (t : tree) : bytes := if is_value t then post_v d else [].
+Definition ctx_next (d : CteEnc.deco) (t : tree) : CteEnc.deco := if is_value t then next_v d else d.
+Definition ctx_ok (d : CteEnc.deco) (t : tree) : bool :=
+  match d with
+  | CteEnc.DTop | CteEnc.DMapValue => is_value t
+  | CteEnc.DList => negb (is_pair t)
+  | CteEnc.DMapKey => true
+  | _ => false
+  end.
+
+Definition encodes (t : tree) : Prop :=
+  wf t -> forall c s d stk, CteEnc.stack s = d :: stk -> ctx_ok d t = true ->
+  exists s', CteEnc.run c s (events_of t) = Some s' /\
+             outcome_of (ctx_pre d (CteEnc.ind s) ++ pp (CteEnc.ind s) t ++ ctx_post d t) (ctx_next d t :: stk) s s'.
+
+Lemma ctx_ok_vctx d t : ctx_ok d t = true -> vctx d = true.
+Proof. destruct d; try discriminate; reflexivity. Qed.
+
+Lemma run_one c s e : CteEnc.run c s [e] = CteEnc.step c s e.
+Proof. cbn [CteEnc.run]. destruct (CteEnc.step c s e); reflexivity. Qed.
+
+Lemma encodes_scalars :
+  encodes VNull /\ (forall b, encodes (VBool b)) /\ (forall n, encodes (VPos n)) /\ (forall n, encodes (VNeg n)) /\
+  (forall z, encodes (VInt z)) /\ (forall rs, encodes (VStr rs)).
+Proof.
+  repeat split; intros; intros Hwf c s d stk Hs Hok; assert (Hd := ctx_ok_vctx _ _ Hok);
+    cbn [events_of]; rewrite run_one; unfold ctx_post, ctx_next; cbn [is_value]; unfold pp; cbn [gp CteEnc.step].
+  - apply scalar_enc; assumption.
+  - destruct b; apply scalar_enc; assumption.
+  - apply scalar_enc; assumption.
+  - apply (scalar_enc (45 :: CteEnc.dec n)); assumption.
+  - unfold z_text. destruct (0 <=? z)%Z; apply scalar_enc; assumption.
+  - change (AT_String =? AT_String) with true. cbv iota. cbn [wf] in Hwf.
+    assert (G := value_enc (CteEnc.write_quoted true (str_bytes rs)) (34 :: qbytes rs ++ [34]) s d stk
+                  (fun s0 => emits_write_quoted true rs s0 Hwf) Hs Hd).
+    destruct G as [s' [E O]]. exists s'. split; [|exact O].
+    rewrite <- E. destruct (CteEnc.before_value s); reflexivity.
+Qed.
+
+Lemma run_app c s a b : CteEnc.run c s (a ++ b) = CteEnc.bind (CteEnc.run c s a) (fun m => CteEnc.run c m b).
+Proof.
+  revert s. induction a as [|e a IH]; intro s; cbn [app CteEnc.run CteEnc.bind]; [reflexivity|].
+  destruct (CteEnc.step c s e); cbn [CteEnc.bind]; [apply IH|reflexivity].
+Qed.
+
+Lemma encodes_comment m rs : encodes (VCom m rs).
+Proof.
+  intros Hwf c s d stk Hs Hok. cbn [events_of]. rewrite run_one. unfold ctx_post, ctx_next. cbn [is_value].
+  unfold pp. cbn [gp CteEnc.step]. unfold CteEnc.before_comment, CteEnc.after_comment. rewrite Hs.
+  destruct d; try discriminate Hok; cbn [CteEnc.bind ctx_pre].
+  - (* in a list *)
+    assert (E1 := emits_newline_indent s). destruct E1 as [A1 [A2 [A3 A4]]].
+    destruct m.
+    + set (s1 := CteEnc.newline_indent s) in *.
+      set (s2 := CteEnc.emit_nolf [47; 42] s1). set (s3 := CteEnc.emit_plf (str_bytes rs) s2). set (s4 := CteEnc.emit_nolf [42; 47] s3).
+      assert (H4 : emits (([47; 42] ++ str_bytes rs) ++ [42; 47]) s1 s4).
+      { eapply emits_trans; [eapply emits_trans; [apply emits_emit_nolf|apply emits_emit_plf]|apply emits_emit_nolf]. }
+      destruct H4 as [B1 [B2 [B3 B4]]].
+      assert (Hst : CteEnc.stack s4 = CteEnc.DList :: stk) by congruence. rewrite Hst.
+      eexists. split; [reflexivity|]. unfold outcome_of, CteEnc.set_cho. cbn [CteEnc.rout CteEnc.ind CteEnc.stack CteEnc.cho].
+      repeat split; try congruence. rewrite B1, A1. rewrite app_assoc, <- rev_app_distr. f_equal. f_equal.
+      rewrite ?app_nil_r. cbn [app]. rewrite <- ?app_assoc. cbn [app]. reflexivity.
+    + set (s1 := CteEnc.newline_indent s) in *.
+      set (s2 := CteEnc.emit_nolf [47; 47] s1). set (s3 := CteEnc.emit_nolf (str_bytes rs) s2).
+      assert (H4 : emits ([47; 47] ++ str_bytes rs) s1 s3).
+      { eapply emits_trans; apply emits_emit_nolf. }
+      destruct H4 as [B1 [B2 [B3 B4]]].
+      assert (Hst : CteEnc.stack s3 = CteEnc.DList :: stk) by congruence. rewrite Hst.
+      eexists. split; [reflexivity|]. unfold outcome_of, CteEnc.set_cho. cbn [CteEnc.rout CteEnc.ind CteEnc.stack CteEnc.cho].
+      repeat split; try congruence. rewrite B1, A1. rewrite app_assoc, <- rev_app_distr. f_equal. f_equal.
+      rewrite ?app_nil_r. cbn [app]. rewrite <- ?app_assoc. cbn [app]. reflexivity.
+  - (* before a key *)
+    assert (E1 := emits_newline_indent s). destruct E1 as [A1 [A2 [A3 A4]]].
+    destruct m.
+    + set (s1 := CteEnc.newline_indent s) in *.
+      set (s2 := CteEnc.emit_nolf [47; 42] s1). set (s3 := CteEnc.emit_plf (str_bytes rs) s2). set (s4 := CteEnc.emit_nolf [42; 47] s3).
+      assert (H4 : emits (([47; 42] ++ str_bytes rs) ++ [42; 47]) s1 s4).
+      { eapply emits_trans; [eapply emits_trans; [apply emits_emit_nolf|apply emits_emit_plf]|apply emits_emit_nolf]. }
+      destruct H4 as [B1 [B2 [B3 B4]]].
+      assert (Hst : CteEnc.stack s4 = CteEnc.DMapKey :: stk) by congruence. rewrite Hst.
+      eexists. split; [reflexivity|]. unfold outcome_of, CteEnc.set_cho. cbn [CteEnc.rout CteEnc.ind CteEnc.stack CteEnc.cho].
+      repeat split; try congruence. rewrite B1, A1. rewrite app_assoc, <- rev_app_distr. f_equal. f_equal.
+      rewrite ?app_nil_r. cbn [app]. rewrite <- ?app_assoc. cbn [app]. reflexivity.
+    + set (s1 := CteEnc.newline_indent s) in *.
+      set (s2 := CteEnc.emit_nolf [47; 47] s1). set (s3 := CteEnc.emit_nolf (str_bytes rs) s2).
+      assert (H4 : emits ([47; 47] ++ str_bytes rs) s1 s3).
+      { eapply emits_trans; apply emits_emit_nolf. }
+      destruct H4 as [B1 [B2 [B3 B4]]].
+      assert (Hst : CteEnc.stack s3 = CteEnc.DMapKey :: stk) by congruence. rewrite Hst.
+      eexists. split; [reflexivity|]. unfold outcome_of, CteEnc.set_cho. cbn [CteEnc.rout CteEnc.ind CteEnc.stack CteEnc.cho].
+      repeat split; try congruence. rewrite B1, A1. rewrite app_assoc, <- rev_app_distr. f_equal. f_equal.
+      rewrite ?app_nil_r. cbn [app]. rewrite <- ?app_assoc. cbn [app]. reflexivity.
+Qed.
+
+Lemma enc_items c d0 stk0 l :
+  Forall (fun x => wf x /\ encodes x /\ ctx_ok d0 x = true /\ ctx_post d0 x = [] /\ ctx_next d0 x = d0) l ->
+  ctx_pre d0 0 = nl 0 ->
+  forall s, CteEnc.stack s = d0 :: stk0 ->
+  exists s', CteEnc.run c s (flat_map events_of l) = Some s' /\
+             CteEnc.rout s' = rev (flat_map (fun x => nl (CteEnc.ind s) ++ pp (CteEnc.ind s) x) l) ++ CteEnc.rout s /\
+             CteEnc.ind s' = CteEnc.ind s /\ CteEnc.stack s' = d0 :: stk0 /\
+             CteEnc.cho s' = match l with [] => CteEnc.cho s | _ => true end.
+Proof.
+  intros Hl Hpre. induction Hl as [|x l' [Hwf [Hx [Hok [Hpost Hnext]]]] Hl' IH]; intros s Hs.
+  - exists s. cbn [flat_map CteEnc.run rev app]. repeat split. exact Hs.
+  - cbn [flat_map]. rewrite run_app.
+    destruct (Hx Hwf c s d0 stk0 Hs Hok) as [s1 [E1 [A1 [A2 [A3 A4]]]]].
+    rewrite E1. cbn [CteEnc.bind]. rewrite Hnext in A3.
+    destruct (IH s1 A3) as [s2 [E2 [B1 [B2 [B3 B4]]]]].
+    exists s2. split; [exact E2|]. repeat split; try congruence.
+    + rewrite B1, A1, A2, Hpost, app_nil_r.
+      assert (Ep : ctx_pre d0 (CteEnc.ind s) = nl (CteEnc.ind s)) by (destruct d0; try discriminate Hpre; reflexivity).
+      rewrite Ep. rewrite !rev_app_distr, <- !app_assoc. reflexivity.
+    + rewrite B4. destruct l'; [exact A4|reflexivity].
+Qed.
+
+Lemma encodes_pair k v : encodes k -> encodes v -> encodes (VPair k v).
+Proof.
+  intros Hk Hv Hwf c s d stk Hs Hok. cbn [wf] in Hwf. destruct Hwf as [Wk [Wv [Vk Vv]]].
+  destruct d; try discriminate Hok. cbn [events_of]. rewrite run_app.
+  destruct (Hk Wk c s CteEnc.DMapKey stk Hs eq_refl) as [s1 [E1 [A1 [A2 [A3 A4]]]]].
+  rewrite E1. cbn [CteEnc.bind]. unfold ctx_post, ctx_next in A1, A3. rewrite Vk in A1, A3. cbn [post_v next_v] in A1, A3.
+  assert (Hok2 : ctx_ok CteEnc.DMapValue v = true) by exact Vv.
+  destruct (Hv Wv c s1 CteEnc.DMapValue stk A3 Hok2) as [s2 [E2 [B1 [B2 [B3 B4]]]]].
+  exists s2. split; [exact E2|]. unfold ctx_post, ctx_next in B1, B3 |- *. rewrite Vv in B1, B3. cbn [is_value post_v next_v ctx_pre] in *.
+  unfold outcome_of. repeat split; try congruence.
+  rewrite B1, A1, A2. rewrite app_assoc, <- rev_app_distr. f_equal. f_equal.
+  unfold pp. cbn [gp]. rewrite ?app_nil_r. cbn [app]. rewrite <- ?app_assoc. cbn [app]. reflexivity.
+Qed.
+
+Lemma rev_chain (pre items closing post : bytes) oc cc R :
+  rev post ++ cc :: rev closing ++ rev items ++ oc :: rev pre ++ R =
+  rev (pre ++ (oc :: items ++ closing ++ [cc]) ++ post) ++ R.
+Proof.
+  rewrite !rev_app_distr. cbn [rev]. rewrite !rev_app_distr. cbn [rev app]. repeat (rewrite <- !app_assoc; cbn [app]). reflexivity.
+Qed.
+
+Section Container.
+  Variables (c : CteEnc.ccfg) (oc cc : N) (dk : CteEnc.deco) (eopen : event).
+  Hypothesis Hopen : forall s, CteEnc.step c s eopen = CteEnc.open_container true [oc] dk s.
+  Hypothesis Hclose : forall s stk', CteEnc.stack s = dk :: stk' -> CteEnc.end_container s = CteEnc.close_container cc s.
+  Hypothesis Hpre : ctx_pre dk 0 = nl 0.
+
+  Lemma container_enc l s d stk :
+    Forall (fun x => wf x /\ encodes x /\ ctx_ok dk x = true /\ ctx_post dk x = [] /\ ctx_next dk x = dk) l ->
+    CteEnc.stack s = d :: stk -> vctx d = true ->
+    exists s', CteEnc.run c s (eopen :: flat_map events_of l ++ [EEnd]) = Some s' /\
+      outcome_of (ctx_pre d (CteEnc.ind s) ++
+                  (oc :: flat_map (fun x => nl (CteEnc.ind s + 4) ++ pp (CteEnc.ind s + 4) x) l ++
+                         (match l with [] => [] | _ => nl (CteEnc.ind s) end) ++ [cc]) ++ post_v d)
+                 (next_v d :: stk) s s'.
+  Proof.
+    intros Hl Hs Hd. cbn [CteEnc.run]. rewrite Hopen. unfold CteEnc.open_container.
+    destruct (before_value_spec s d stk Hs Hd) as [s0 [E0 [A1 [A2 [A3 A4]]]]]. rewrite E0. cbn [CteEnc.bind].
+    set (s1 := CteEnc.push dk (CteEnc.set_ind (CteEnc.ind (CteEnc.set_cho false s0) + 4) (CteEnc.emit_nolf [oc] (CteEnc.set_cho false s0)))).
+    assert (R1 : CteEnc.rout s1 = oc :: CteEnc.rout s0) by reflexivity.
+    assert (I1 : CteEnc.ind s1 = CteEnc.ind s + 4) by (rewrite <- A2; reflexivity).
+    assert (S1 : CteEnc.stack s1 = dk :: d :: stk) by (unfold s1, CteEnc.push; cbn [CteEnc.stack CteEnc.set_stack CteEnc.set_ind CteEnc.emit_nolf CteEnc.emit_cd CteEnc.set_cho]; congruence).
+    assert (C1 : CteEnc.cho s1 = false) by reflexivity.
+    rewrite run_app.
+    destruct (enc_items c dk (d :: stk) l Hl Hpre s1 S1) as [s2 [E2 [B1 [B2 [B3 B4]]]]].
+    rewrite E2. cbn [CteEnc.bind]. rewrite run_one. cbn [CteEnc.step]. rewrite (Hclose s2 _ B3).
+    unfold CteEnc.close_container, CteEnc.unindent.
+    assert (I2 : CteEnc.ind s2 = CteEnc.ind s + 4) by congruence.
+    replace (CteEnc.ind s2 <? 4) with false by lia. cbn [CteEnc.bind].
+    set (s3 := CteEnc.set_ind (CteEnc.ind s2 - 4) s2).
+    assert (I3 : CteEnc.ind s3 = CteEnc.ind s) by (unfold s3; cbn [CteEnc.ind CteEnc.set_ind]; lia).
+    assert (C3 : CteEnc.cho s3 = match l with [] => false | _ => true end) by (unfold s3; cbn [CteEnc.cho CteEnc.set_ind]; rewrite B4, C1; reflexivity).
+    set (s4 := if CteEnc.cho s3 then CteEnc.newline_indent s3 else s3).
+    assert (E4 : emits (match l with [] => [] | _ => nl (CteEnc.ind s) end) s3 s4).
+    { unfold s4. rewrite C3. destruct l; [apply emits_refl|]. rewrite <- I3. apply emits_newline_indent. }
+    destruct E4 as [D1 [D2 [D3 D4]]].
+    set (s5 := CteEnc.emit_nolf [cc] s4).
+    assert (S5 : CteEnc.stack s5 = dk :: d :: stk).
+    { unfold s5. cbn [CteEnc.stack CteEnc.emit_nolf CteEnc.emit_cd]. rewrite D3. unfold s3. cbn [CteEnc.stack CteEnc.set_ind]. exact B3. }
+    unfold CteEnc.unstack. rewrite S5. cbn [CteEnc.bind].
+    set (s6 := CteEnc.set_stack (d :: stk) s5).
+    assert (S6 : CteEnc.stack s6 = d :: stk) by reflexivity.
+    destruct (after_value_spec s6 d stk S6 Hd) as [s7 [E7 [F1 [F2 [F3 F4]]]]].
+    exists s7. split; [exact E7|]. unfold outcome_of. repeat split; try assumption.
+    - rewrite F1. unfold s6. cbn [CteEnc.rout CteEnc.set_stack]. unfold s5. cbn [CteEnc.rout CteEnc.emit_nolf CteEnc.emit_cd rev_append].
+      rewrite D1. unfold s3. cbn [CteEnc.rout CteEnc.set_ind]. rewrite B1, I1, R1, A1. apply rev_chain.
+    - rewrite F2. unfold s6, s5. cbn [CteEnc.ind CteEnc.set_stack CteEnc.emit_nolf CteEnc.emit_cd]. congruence.
+  Qed.
+End Container.
+
+Lemma encodes_all t : encodes t.
+Proof.
+  induction t using tree_induction.
+  - apply encodes_scalars.
+  - apply encodes_scalars.
+  - apply encodes_scalars.
+  - apply encodes_scalars.
+  - apply encodes_scalars.
+  - apply encodes_scalars.
+  - apply encodes_comment.
+  - apply encodes_pair; assumption.
+  - intros Hwf c s d stk Hs Hok. apply wf_list in Hwf. assert (Hd := ctx_ok_vctx _ _ Hok).
+    cbn [events_of]. unfold ctx_post, ctx_next. cbn [is_value]. unfold pp. cbn [gp].
+    apply (container_enc c 91 93 CteEnc.DList EList); try assumption.
+    + reflexivity.
+    + intros s0 stk' H0. unfold CteEnc.end_container. rewrite H0. reflexivity.
+    + reflexivity.
+    + rewrite Forall_forall in *. intros x Hx. destruct (Hwf x Hx) as [Wx Px].
+      split; [exact Wx|]. split; [apply H, Hx|]. split; [cbn [ctx_ok]; rewrite Px; reflexivity|].
+      unfold ctx_post, ctx_next. destruct (is_value x); repeat split.
+  - intros Hwf c s d stk Hs Hok. apply wf_map in Hwf. assert (Hd := ctx_ok_vctx _ _ Hok).
+    cbn [events_of]. unfold ctx_post, ctx_next. cbn [is_value]. unfold pp. cbn [gp].
+    apply (container_enc c 123 125 CteEnc.DMapKey EMap); try assumption.
+    + reflexivity.
+    + intros s0 stk' H0. unfold CteEnc.end_container. rewrite H0. reflexivity.
+    + reflexivity.
+    + rewrite Forall_forall in *. intros x Hx. destruct (Hwf x Hx) as [Wx Px].
+      split; [exact Wx|]. split; [apply H, Hx|]. split; [reflexivity|].
+      unfold ctx_post, ctx_next. rewrite Px. repeat split.
+Qed.
+
+(* the encoder model on a document of the fragment writes the layout [pp_doc] *)
+Theorem encode_pp_doc c t : wf t -> is_value t = true ->
+  CteEnc.cte_encode c (document (events_of t)) = Some (pp_doc t).
+Proof.
+  intros Hwf Hv. unfold CteEnc.cte_encode, document. cbn [CteEnc.run CteEnc.step CteEnc.bind].
+  set (sb := CteEnc.newline_indent (CteEnc.emit_raw (CteEnc.dec 0) (CteEnc.emit_nolf [99] (CteEnc.set_stack [CteEnc.DTop] (CteEnc.set_ind 0 CteEnc.est0))))).
+  assert (Sb : CteEnc.stack sb = CteEnc.DTop :: []) by reflexivity.
+  assert (Ib : CteEnc.ind sb = 0) by reflexivity.
+  assert (Rb : CteEnc.rout sb = rev (99 :: 48 :: nl 0)) by reflexivity.
+  rewrite run_app.
+  destruct (encodes_all t Hwf c sb CteEnc.DTop [] Sb Hv) as [s' [E [A1 [A2 [A3 A4]]]]].
+  rewrite E. cbn [CteEnc.bind CteEnc.run CteEnc.step]. unfold CteEnc.out_of. rewrite A1, Rb, Ib.
+  unfold ctx_post. rewrite Hv. cbn [ctx_pre post_v app]. rewrite app_nil_r.
+  rewrite <- rev_app_distr, rev_involutive. reflexivity.
+Qed.
+
+(* ---- same data ---- *)
+
+Fixpoint devs (t : tree) : list Denote.dev :=
+  match t with
+  | VNull => [Denote.DNull] | VBool b => [Denote.DBool b]
+  | VPos n => [Denote.dnum false n 0] | VNeg n => [Denote.dnum true n 0]
+  | VInt z => [Denote.dnum (z <? 0)%Z (Z.abs_N z) 0]
+  | VStr rs => [Denote.DArr AT_String (Denote.whole_count AT_String (N.of_nat (length (str_bytes rs))) (str_bytes rs)) (str_bytes rs)]
+  | VCom m rs => [Denote.DComment m (str_bytes rs)]
+  | VPair k v => devs k ++ devs v
+  | VList l => Denote.DList :: flat_map devs l ++ [Denote.DEnd]
+  | VMap l => Denote.DMap :: flat_map devs l ++ [Denote.DEnd]
+  end.
+
+Lemma den_rd_int neg n r : Denote.den_go None (rd_int neg n :: r) = Denote.dnum neg n 0 :: Denote.den_go None r.
+Proof.
+  unfold rd_int. destruct (N.eqb_spec n 0) as [E|E]; destruct neg; cbn [andb].
+  - subst. reflexivity.
+  - subst. reflexivity.
+  - destruct ((- 2 ^ 63 <=? - Z.of_N n)%Z && (- Z.of_N n <? 2 ^ 63)%Z); cbn [Denote.den_go];
+      replace (- Z.of_N n <? 0)%Z with true by lia; replace (Z.abs_N (- Z.of_N n)) with n by lia; reflexivity.
+  - destruct ((- 2 ^ 63 <=? Z.of_N n)%Z && (Z.of_N n <? 2 ^ 63)%Z); cbn [Denote.den_go];
+      replace (Z.of_N n <? 0)%Z with false by lia; replace (Z.abs_N (Z.of_N n)) with n by lia; reflexivity.
+Qed.
+
+Lemma den_items (f : tree -> list event) l :
+  Forall (fun t => forall r, Denote.den_go None (f t ++ r) = devs t ++ Denote.den_go None r) l ->
+  forall r, Denote.den_go None (flat_map f l ++ r) = flat_map devs l ++ Denote.den_go None r.
+Proof.
+  induction 1 as [|x l' Hx Hl IH]; intro r; [reflexivity|].
+  cbn [flat_map]. rewrite <- !app_assoc. rewrite Hx, IH. reflexivity.
+Qed.
+
+Lemma den_events_of t : forall r, Denote.den_go None (events_of t ++ r) = devs t ++ Denote.den_go None r.
+Proof.
+  induction t using tree_induction; intro r; cbn [events_of devs app]; try reflexivity.
+  - rewrite <- app_assoc. rewrite IHt1, IHt2. rewrite <- app_assoc. reflexivity.
+  - cbn [Denote.den_go]. rewrite <- !app_assoc. rewrite (den_items events_of l H). reflexivity.
+  - cbn [Denote.den_go]. rewrite <- !app_assoc. rewrite (den_items events_of l H). reflexivity.
+Qed.
+
+Lemma den_rd_events t : forall r, Denote.den_go None (rd_events t ++ r) = devs t ++ Denote.den_go None r.
+Proof.
+  induction t using tree_induction; intro r; cbn [rd_events devs app]; try reflexivity.
+  - apply den_rd_int.
+  - apply den_rd_int.
+  - unfold rd_z. apply den_rd_int.
+  - rewrite <- app_assoc. rewrite IHt1, IHt2. rewrite <- app_assoc. reflexivity.
+  - cbn [Denote.den_go]. rewrite <- !app_assoc. rewrite (den_items rd_events l H). reflexivity.
+  - cbn [Denote.den_go]. rewrite <- !app_assoc. rewrite (den_items rd_events l H). reflexivity.
+Qed.
+
+Lemma dnum_not_padding neg c e : Denote.is_padding (Denote.dnum neg c e) = false.
+Proof. unfold Denote.dnum. destruct (c =? 0); [reflexivity|]. destruct (Denote.strip10 _ c e). reflexivity. Qed.
+
+Lemma devs_no_padding t : forallb (fun d => negb (Denote.is_padding d)) (devs t) = true.
+Proof.
+  induction t using tree_induction; cbn [devs forallb]; try reflexivity;
+    try (rewrite dnum_not_padding; reflexivity).
+  - rewrite forallb_app, IHt1, IHt2. reflexivity.
+  - rewrite forallb_app. cbn [forallb andb Denote.is_padding negb]. rewrite andb_true_r.
+    induction H as [|x l' Hx Hl IH]; [reflexivity|]. cbn [flat_map]. rewrite forallb_app, Hx, IH. reflexivity.
+  - rewrite forallb_app. cbn [forallb andb Denote.is_padding negb]. rewrite andb_true_r.
+    induction H as [|x l' Hx Hl IH]; [reflexivity|]. cbn [flat_map]. rewrite forallb_app, Hx, IH. reflexivity.
+Qed.
+
+Lemma filter_all {A} (p : A -> bool) l : forallb p l = true -> filter p l = l.
+Proof. induction l as [|x l IH]; cbn [forallb filter]; [reflexivity|]. intro H. apply andb_true_iff in H as [H1 H2]. rewrite H1, (IH H2). reflexivity. Qed.
+
+Theorem same_data t :
+  Denote.den (document (rd_events t)) = Denote.no_padding (Denote.den (document (events_of t))).
+Proof.
+  unfold Denote.den, document. cbn [Denote.den_go]. rewrite den_rd_events, den_events_of.
+  cbn [Denote.den_go]. unfold Denote.no_padding. cbn [filter Denote.is_padding negb].
+  rewrite filter_app. cbn [filter Denote.is_padding negb]. rewrite (filter_all _ _ (devs_no_padding t)). reflexivity.
+Qed.
+
+(* The composed statement for the fragment: the encoder model's text of the stream reads back, through the
+   reader model, as a stream with the same denotation. *)
+Theorem cte_roundtrip_fragment c t : wf t -> is_value t = true ->
+  exists text out,
+    CteEnc.cte_encode c (document (events_of t)) = Some text /\
+    cte_read text = Some out /\
+    Denote.den out = Denote.no_padding (Denote.den (document (events_of t))).
+Proof.
+  intros Hwf Hv. exists (pp_doc t), (document (rd_events t)).
+  split; [apply encode_pp_doc; assumption|]. split; [apply read_pp_doc; assumption|apply same_data].
+Qed.
+
+(* ------------------------------------------------------------------ *)
+(** * Every valid UTF-8 text is the UTF-8 text of its code points *)
+
+Lemma decode_encode r c : decode_rune r = Some (c, length r) -> scalar c /\ CteLit.utf8_enc c = r.
+Proof.
+  unfold decode_rune. destruct r as [|b0 t]; [discriminate|].
+  destruct (N.ltb_spec b0 128) as [H1|H1].
+  { intro H. inversion H; subst. destruct t; [|discriminate]. unfold scalar, CteLit.utf8_enc.
+    replace (c <? 128) with true by lia. split; [lia|reflexivity]. }
+  destruct (N.ltb_spec b0 194) as [H2|H2]; [discriminate|].
+  destruct (N.ltb_spec b0 224) as [H3|H3].
+  { destruct t as [|b1 t]; [discriminate|]. destruct (is_cont b1) eqn:C1; [|discriminate].
+    intro H. inversion H as [[Hc Hl]]. destruct t; [|discriminate]. clear H Hl. subst c.
+    unfold is_cont in C1. unfold scalar, CteLit.utf8_enc.
+    replace ((b0 - 192) * 64 + (b1 - 128) <? 128) with false by lia.
+    replace ((b0 - 192) * 64 + (b1 - 128) <? 2048) with true by lia.
+    split; [lia|]. f_equal; [lia|]. f_equal. lia. }
+  destruct (N.ltb_spec b0 240) as [H4|H4].
+  { destruct t as [|b1 [|b2 t]]; try discriminate.
+    destruct ((if b0 =? 224 then 160 else 128) <=? b1) eqn:L1; [|discriminate].
+    destruct (b1 <=? (if b0 =? 237 then 159 else 191)) eqn:L2; [|discriminate].
+    destruct (is_cont b2) eqn:C2; [|discriminate]. cbn [andb].
+    intro H. inversion H as [[Hc Hl]]. destruct t; [|discriminate]. clear H Hl. subst c.
+    unfold is_cont in C2.
+    assert (B1 : 128 <= b1 <= 191 /\ (b0 = 224 -> 160 <= b1) /\ (b0 = 237 -> b1 <= 159)).
+    { destruct (N.eqb_spec b0 224); destruct (N.eqb_spec b0 237); lia. }
+    clear L1 L2. unfold scalar, CteLit.utf8_enc.
+    set (v := (b0 - 224) * 4096 + (b1 - 128) * 64 + (b2 - 128)).
+    assert (Hc1 : 2048 <= v < 65536) by (unfold v; lia).
+    assert (Hc2 : v < 55296 \/ 57344 <= v) by (unfold v; lia).
+    replace (v <? 128) with false by lia. replace (v <? 2048) with false by lia.
+    replace ((55296 <=? v) && (v <=? 57343) || (1114111 <? v)) with false by lia.
+    replace (v <? 65536) with true by lia.
+    split; [lia|]. unfold v. f_equal; [lia|]. f_equal; [lia|]. f_equal. lia. }
+  destruct (N.ltb_spec b0 245) as [H5|H5]; [|discriminate].
+  destruct t as [|b1 [|b2 [|b3 t]]]; try discriminate.
+  destruct ((if b0 =? 240 then 144 else 128) <=? b1) eqn:L1; [|discriminate].
+  destruct (b1 <=? (if b0 =? 244 then 143 else 191)) eqn:L2; [|discriminate].
+  destruct (is_cont b2) eqn:C2; [|discriminate]. destruct (is_cont b3) eqn:C3; [|discriminate]. cbn [andb].
+  intro H. inversion H as [[Hc Hl]]. destruct t; [|discriminate]. clear H Hl. subst c.
+  unfold is_cont in C2, C3.
+  assert (B1 : 128 <= b1 <= 191 /\ (b0 = 240 -> 144 <= b1) /\ (b0 = 244 -> b1 <= 143)).
+  { destruct (N.eqb_spec b0 240); destruct (N.eqb_spec b0 244); lia. }
+  clear L1 L2. unfold scalar, CteLit.utf8_enc.
+  set (v := (b0 - 240) * 262144 + (b1 - 128) * 4096 + (b2 - 128) * 64 + (b3 - 128)).
+  assert (Hc1 : 65536 <= v < 1114112) by (unfold v; lia).
+  replace (v <? 128) with false by lia. replace (v <? 2048) with false by lia.
+  replace ((55296 <=? v) && (v <=? 57343) || (1114111 <? v)) with false by lia.
+  replace (v <? 65536) with false by lia.
+  split; [lia|]. unfold v. f_equal; [lia|]. f_equal; [lia|]. f_equal; [lia|]. f_equal. lia.
+Qed.
+
+Theorem valid_is_utf8_str s : utf8_valid s = true -> exists rs, Forall scalar rs /\ s = CteLit.utf8_str rs.
+Proof.
+  intro H. apply utf8_valid_iff_Valid in H. induction H as [|r s' [c Hr] Hs' [rs [Hrs ->]]].
+  - exists []. split; [constructor|reflexivity].
+  - destruct (decode_encode r c Hr) as [Hc He]. exists (c :: rs). split; [constructor; assumption|].
+    unfold CteLit.utf8_str. cbn [flat_map]. rewrite He. reflexivity.
+Qed.
+
+Lemma tok_str_idx idx rs rest : scalars rs ->
+  next_tok idx (34 :: qbody rs ++ 34 :: rest) = Some (TVal (EArray AT_String (N.of_nat (length (str_bytes rs))) (str_bytes rs)), rest, idx).
+Proof.
+  intro Hs. cbn [next_tok]. change (is_ws 34) with false. cbv iota. change (34 =? 47) with false.
+  change (34 =? 91) with false. change (34 =? 93) with false. change (34 =? 123) with false. change (34 =? 125) with false.
+  change (34 =? 61) with false. change (34 =? 40) with false. change (34 =? 41) with false. change (34 =? 62) with false.
+  change (34 =? 34) with true. cbv iota. unfold lex_string.
+  rewrite lex_str_qbody; [reflexivity|exact Hs|].
+  rewrite app_length. cbn [length]. assert (H := qbody_length rs). lia.
+Qed.
+
+(* unescape (escape s) = s for every valid UTF-8 s: the text WriteQuotedString writes for s (whatever the encoder
+   state), followed by anything, is read by the lexer as one string token carrying exactly s *)
+Theorem quoted_string_roundtrip (s : bytes) (lf : bool) (st : CteEnc.est) : utf8_valid s = true ->
+  exists txt, emits txt st (CteEnc.write_quoted lf s st) /\
+    forall idx tail, next_tok idx (runes (txt ++ tail)) = Some (TVal (EArray AT_String (N.of_nat (length s)) s), runes tail, idx).
+Proof.
+  intro Hv. destruct (valid_is_utf8_str s Hv) as [rs [Hrs ->]]. fold (str_bytes rs).
+  exists (34 :: qbytes rs ++ [34]). split; [apply emits_write_quoted, Hrs|].
+  intros idx tail. cbn [app]. rewrite runes_ascii_cons by lia. rewrite <- app_assoc, runes_qbytes_app by exact Hrs.
+  cbn [app]. rewrite runes_ascii_cons by lia. apply tok_str_idx, Hrs.
+Qed.
+
+(* ------------------------------------------------------------------ *)
+(** * The property as stated, and where the current code violates it *)
+
+From CE Require Model.Rules.
+
+Definition accepted (es : list event) : Prop := Rules.accepts_document Rules.default_rcfg es = true.
+
+Definition c02_full : Prop :=
+  forall es, accepted es ->
+  exists text out,
+    CteEnc.cte_encode CteEnc.default_ccfg es = Some text /\ cte_read text = Some out /\ accepted out /\
+    Denote.den out = Denote.no_padding (Denote.den es).
+
+Definition in_list (body : list event) : list event := document (EList :: body ++ [EEnd]).
+
+(* the text is not a CTE document any more *)
+Definition unreadable (es : list event) : Prop :=
+  accepted es /\ exists text, CteEnc.cte_encode CteEnc.default_ccfg es = Some text /\ cte_read text = None.
+(* the text reads as different data *)
+Definition changed (es : list event) : Prop :=
+  accepted es /\ exists text out, CteEnc.cte_encode CteEnc.default_ccfg es = Some text /\ cte_read text = Some out /\
+                                  Denote.den out <> Denote.no_padding (Denote.den es).
+
+Lemma unreadable_refutes es : unreadable es -> ~ c02_full.
+Proof. intros [Ha [text [He Hr]]] F. destruct (F es Ha) as [t' [out [He' [Hr' _]]]]. congruence. Qed.
+Lemma changed_refutes es : changed es -> ~ c02_full.
+Proof. intros [Ha [text [out [He [Hr Hd]]]]] F. destruct (F es Ha) as [t' [out' [He' [Hr' [_ Hd']]]]]. congruence. Qed.
+
+Ltac unreadable_tac := split; [vm_compute; reflexivity | eexists; split; [vm_compute; reflexivity | vm_compute; reflexivity]].
+Ltac changed_tac := split; [vm_compute; reflexivity | eexists; eexists; split; [vm_compute; reflexivity | split; [vm_compute; reflexivity | let H := fresh "H" in (intro H; vm_compute in H; discriminate H)]]].
+
+(* //a<LF>b : the second line is not a comment *)
+Definition w_comment_line_feed := in_list [EComment false [97; 10; 98]; EPosInt 1].
+Lemma w_comment_line_feed_unreadable : unreadable w_comment_line_feed.
+Proof. unreadable_tac. Qed.
+
+(* /*x*/y*/ *)
+Definition w_comment_block_close := in_list [EComment true [120; 42; 47; 121]; EPosInt 1].
+Lemma w_comment_block_close_unreadable : unreadable w_comment_block_close.
+Proof. unreadable_tac. Qed.
+
+(* /*x/*/ : the final slash and the closing delimiter read as an opener *)
+Definition w_comment_block_slash := in_list [EComment true [120; 47]; EPosInt 1].
+Lemma w_comment_block_slash_unreadable : unreadable w_comment_block_slash.
+Proof. unreadable_tac. Qed.
+
+(* //a<FF>b : the byte is not UTF-8; it comes back as U+FFFD *)
+Definition w_comment_invalid_utf8 := in_list [EComment false [97; 255; 98]; EPosInt 1].
+Lemma w_comment_invalid_utf8_changed : changed w_comment_invalid_utf8.
+Proof. changed_tac. Qed.
+
+(* //a<CR> : the carriage return is taken for a part of the line end *)
+Definition w_comment_trailing_cr := in_list [EComment false [97; 13]; EPosInt 1].
+Lemma w_comment_trailing_cr_changed : changed w_comment_trailing_cr.
+Proof. changed_tac. Qed.
+
+(* ((// ...: Column happens to equal the origin of the inner node, so no line feed ends the comment *)
+Definition w_comment_first_in_node := document [ENode; ENode; EComment false []; ENull; EEnd; ENull; EEnd].
+Lemma w_comment_first_in_node_unreadable : unreadable w_comment_first_in_node.
+Proof. unreadable_tac. Qed.
+
+(* the big float 1 is written 0x1, which is the integer 1 *)
+Definition w_bigfloat_one := in_list [EBigFloat (Some (BFin false 1 0 53))].
+Lemma w_bigfloat_one_changed : changed w_bigfloat_one.
+Proof. changed_tac. Qed.
+
+(* -1844674407370.9551621 (coefficient 2^64 + 5) is read as -0.0000005 *)
+Definition w_bigdecimal_wide := in_list [EBigDecimal (Some (DFin true 18446744073709551621 (-7)))].
+Lemma w_bigdecimal_wide_changed : changed w_bigdecimal_wide.
+Proof. changed_tac. Qed.
+
+(* a float32 array element 0x7fc00001 is written "nan" and read as 0x7fe00000 *)
+Definition w_float_array_nan := in_list [EArray AT_Float32 2 [0; 0; 128; 63; 1; 0; 192; 127]].
+Lemma w_float_array_nan_changed : changed w_float_array_nan.
+Proof. changed_tac. Qed.
+
+Lemma c02_full_refuted : ~ c02_full.
+Proof. exact (unreadable_refutes _ w_comment_line_feed_unreadable). Qed.
+
+(* ---- examples: the hypotheses of the theorems are satisfiable ---- *)
+
+Definition ex_tree : tree :=
+  VMap [VCom false [104; 105];
+        VPair (VStr [107; 233; 10; 34; 8364; 128512])
+              (VList [VNull; VBool true; VPos 18446744073709551616; VNeg 0; VInt (-5); VCom true [42; 120]; VList []; VMap []]);
+        VPair (VNeg 7) (VStr [])].
+
+Lemma ex_tree_wf : wf ex_tree /\ is_value ex_tree = true.
+Proof.
+  split; [|reflexivity]. cbn [ex_tree wf is_value is_pair]. unfold scalars, scalar.
+  repeat match goal with
+         | |- _ /\ _ => split
+         | |- Forall _ _ => constructor
+         | |- True => exact I
+         | |- _ = _ => reflexivity
+         | |- _ => lia
+         end.
+Qed.
+
+Lemma ex_tree_accepted : accepted (document (events_of ex_tree)).
+Proof. vm_compute. reflexivity. Qed.
